@@ -533,7 +533,7 @@ func genEvent(r *core.Rand, prev byte, big bool, allowEmptySeqData bool) ref.Eve
 			fm := fixedMeta[r.Intn(len(fixedMeta))]
 			p := r.Bytes(fm[1])
 			if fm[0] == 0x51 && r.Chance(1, 4) {
-				p = []byte{0, 0, byte(r.Intn(3))} // extreme tempi
+				p = [][]byte{{0, 0, byte(r.Intn(3))}, {0x07, 0x00, 0x00}, {0x07, 0x00, 0xFF}, {0xFF, 0xFF, 0xFF}, {0x00, 0xFF, 0x00}}[r.Intn(5)] // extreme tempi, zero bytes inside
 			}
 			return ref.Event{Kind: ref.Meta, Status: 0xFF, MetaType: byte(fm[0]), Data: p}
 		case 1:
@@ -542,7 +542,12 @@ func genEvent(r *core.Rand, prev byte, big bool, allowEmptySeqData bool) ref.Eve
 			if t == 0x7F && n == 0 && !allowEmptySeqData {
 				n = 1
 			}
-			return ref.Event{Kind: ref.Meta, Status: 0xFF, MetaType: t, Data: r.Bytes(n)}
+			data := r.Bytes(n)
+			if r.Chance(1, 8) {
+				// payloads that look like file structure
+				data = append([]byte{}, [][]byte{[]byte("MTrk"), []byte("MThd\x00\x00\x00\x06"), {0x00, 0xFF, 0x2F, 0x00}, {0xFF, 0x2F, 0x00, 0x4D, 0x54, 0x72, 0x6B}, {0xF7}, {0xF0, 0x7E, 0xF7}, {0x00, 0x90, 0x40, 0x40}}[r.Intn(7)]...)
+			}
+			return ref.Event{Kind: ref.Meta, Status: 0xFF, MetaType: t, Data: data}
 		default:
 			t := unknownMeta[r.Intn(len(unknownMeta))]
 			return ref.Event{Kind: ref.Meta, Status: 0xFF, MetaType: t, Data: r.Bytes(genPayloadLen(r, false))}
@@ -582,6 +587,15 @@ func genAPIHist(r *core.Rand, tier string, max32 bool, allowHuge ...bool) *APIHi
 		hugeTrack = 0
 	}
 	nTracks := r.PickInt(1, 1, 1, 2, 2, 3, 4, 6)
+	manyEvents := 0
+	if len(allowHuge) > 0 && allowHuge[0] {
+		if r.Chance(1, 80) {
+			nTracks = r.PickInt(17, 33, 130, 260) // more tracks than channels, more than a byte counts
+		}
+		if r.Chance(1, 60) {
+			manyEvents = r.PickInt(130, 260, 1100, 4200) // more events in one track than small counters hold
+		}
+	}
 	if hugeTrack == 0 {
 		hugeTrack = r.Intn(nTracks)
 	}
@@ -589,9 +603,15 @@ func genAPIHist(r *core.Rand, tier string, max32 bool, allowHuge ...bool) *APIHi
 	if tier == "thorough" && r.Chance(1, 5) {
 		maxEv = 150
 	}
+	if nTracks > 16 {
+		maxEv = 2
+	}
 	for t := 0; t < nTracks; t++ {
 		h.Ops = append(h.Ops, APIOp{Op: "track"})
 		nEv := r.Range(0, maxEv)
+		if manyEvents > 0 && t == 0 {
+			nEv = manyEvents
+		}
 		earlyAt := -1
 		closeMode := r.Weighted(55, 20, 15, 10) // late, omitted, early, twice
 		if closeMode == 2 && nEv > 0 {
